@@ -10,6 +10,7 @@ if os.environ.get("PYTHONHASHSEED") is None or (os.environ.get("PYTHONHASHSEED")
     os.execve("/venv/bin/python", ["/venv/bin/python", os.path.abspath(__file__)] + sys.argv[1:], env)
 
 sys.path.insert(0, HERE)
+import bleak  # noqa: E402,F401  (before aiohomekit.const decides BLE_TRANSPORT_SUPPORTED)
 sys.dont_write_bytecode = True
 import logging  # noqa: E402
 
